@@ -14,24 +14,60 @@ def pval(v):
     return 2.40 + 0.03 * v
 
 
+def four_body_dict():
+    """A -> R1 R2 | R1 R3 | R4 E with R1 -> B C in every chain: the decay R1->B+C is one object shared
+    by the three chains; R2, R3, R4 each occur in one chain only"""
+    fin = {"J": 0, "P": -1}
+    return {
+        "data": {"dat_order": ["B", "C", "D", "E"]},
+        "decay": {
+            "A": [["R1", "R2"], ["R1", "R3"], ["R4", "E"]],
+            "R1": ["B", "C"],
+            "R2": ["D", "E"],
+            "R3": ["D", "E"],
+            "R4": ["R1", "D"],
+        },
+        "particle": {
+            "$top": {"A": {"J": 0, "P": -1, "mass": 5.3}},
+            "$finals": {"B": dict(fin, mass=0.5), "C": dict(fin, mass=0.14), "D": dict(fin, mass=0.5), "E": dict(fin, mass=0.14)},
+            "R1": {"J": 1, "Par": -1, "m0": 0.9, "g0": 0.05},
+            "R2": {"J": 1, "Par": -1, "m0": 1.0, "g0": 0.2},
+            "R3": {"J": 1, "Par": -1, "m0": 0.9, "g0": 0.06},
+            "R4": {"J": 1, "Par": -1, "m0": 2.43, "g0": 0.2},
+        },
+        "constrains": {"particle": None, "decay": None},
+    }
+
+
 class Injected(Exception):
     pass
 
 
 class SessionReplayer:
-    def __init__(self, use_tf_function, seed, n_events=6, fit_fraction_method="old"):
+    def __init__(self, use_tf_function, seed, n_events=6, fit_fraction_method="old", model="3body"):
         from tf_pwa.config import regist_config
 
         self.use_tf_function = use_tf_function
         self.seed = seed
         self.ff_method = fit_fraction_method
-        d = models.toy_dict(data={"use_tf_function": True} if use_tf_function else None)
+        if model == "3body":
+            d = models.toy_dict(data={"use_tf_function": True} if use_tf_function else None)
+            self.pname, self.res = "R_BD_mass", dict(RES)
+            phsp = {}
+        else:
+            d = four_body_dict()
+            if use_tf_function:
+                d["data"]["use_tf_function"] = True
+            self.pname, self.res = "R4_mass", {1: "R2", 2: "R3", 3: "R4"}
+            phsp = dict(masses=(0.5, 0.14, 0.5, 0.14), m0=5.3)
         self.config = models.make_config(d)
         self.amp = self.config.get_amplitude()
         self.dg = self.amp.decay_group
         self.vm = self.amp.vm
         models.set_reproducible_params(self.config, seed)
-        self.p4 = models.phsp_p4(n_events, seed)
+        self.p4 = models.phsp_p4(n_events, seed, **phsp)
+        if len(self.amp.decay_group.chains) != 3:
+            raise RuntimeError("session model does not have three chains")
         self.probe = self.config.data.cal_angle(self.p4)  # probe events for the eager density
         self.data = self.config.data.cal_angle(self.p4)  # the data set passed to amp(data): same id every time
         try:
@@ -118,19 +154,19 @@ class SessionReplayer:
         diffs = []
         if isinstance(m["p"], tuple):
             pass  # the model stored the optimiser coordinate X(p): the real value is y2x(p) of the bound
-        elif abs(snap["phys"][PNAME] - pval(m["p"])) > 1e-9:
-            diffs.append("p: impl %r model %r" % (snap["phys"][PNAME], pval(m["p"])))
+        elif abs(snap["phys"][self.pname] - pval(m["p"])) > 1e-9:
+            diffs.append("p: impl %r model %r" % (snap["phys"][self.pname], pval(m["p"])))
         if snap["active"] != frozenset(m["sel"]):
             diffs.append("active: impl %s model %s" % (sorted(snap["active"]), sorted(set(m["sel"]))))
         mv = m["maskv"]
-        if (mv == "None") != (PNAME not in snap["mask"]):
+        if (mv == "None") != (self.pname not in snap["mask"]):
             diffs.append("mask: impl %s model %s" % (snap["mask"], mv))
         if any(snap["mask_factor"]) != bool(m["maskFactor"]) or (any(snap["mask_factor"]) and not all(snap["mask_factor"])):
             diffs.append("mask_factor: impl %s model %s" % (snap["mask_factor"], m["maskFactor"]))
         if snap["cfg"] != m["cfg"]:
             diffs.append("cfg: impl %r model %r" % (snap["cfg"], m["cfg"]))
-        if (PNAME in self.vm.bnd_dic) != bool(m["bnd"]):
-            diffs.append("bound: impl %s model %s" % (PNAME in self.vm.bnd_dic, m["bnd"]))
+        if (self.pname in self.vm.bnd_dic) != bool(m["bnd"]):
+            diffs.append("bound: impl %s model %s" % (self.pname in self.vm.bnd_dic, m["bnd"]))
         return diffs
 
     # ------------------------------------------------------------------
@@ -162,13 +198,13 @@ class SessionReplayer:
         from tf_pwa.config import temp_config
 
         if kind == "temp_params_amp":
-            cm = self.amp.temp_params({PNAME: pval(arg)})
+            cm = self.amp.temp_params({self.pname: pval(arg)})
         elif kind == "temp_params_vm":
-            cm = self.vm.temp_params({PNAME: pval(arg)})
+            cm = self.vm.temp_params({self.pname: pval(arg)})
         elif kind == "mask_params":
-            cm = self.amp.mask_params({PNAME: pval(arg)})
+            cm = self.amp.mask_params({self.pname: pval(arg)})
         elif kind == "temp_used_res":
-            cm = self.amp.temp_used_res([RES[i] for i in sorted(arg)])
+            cm = self.amp.temp_used_res([self.res[i] for i in sorted(arg)])
         elif kind == "temp_total_gls_one":
             cm = self.amp.temp_total_gls_one()
         elif kind == "temp_config":
@@ -190,7 +226,7 @@ class SessionReplayer:
             elif kind == "partial_weight_interference":
                 self.amp.partial_weight_interference(self.probe)
             elif kind == "fit_fractions":
-                res = [RES[i] for i in arg[0]]
+                res = [self.res[i] for i in arg[0]]
                 fit_fractions(self.amp, self.probe, res=res, batch=1000, method="new" if arg[1] else "old")
             else:
                 raise ValueError(kind)
